@@ -507,8 +507,10 @@ def _set_allocations_for_consumer(req, schema):
         if created_new_consumer and not allocation_objects:
             # Empty allocations for a consumer that did not exist: nothing
             # was written, so do not leave a consumer record without
-            # allocations (removed in this same transaction).
-            consumer.delete()
+            # allocations (removed in this same transaction) - unless a
+            # racing request has given it allocations in the meantime.
+            consumer_obj.delete_consumers_if_no_allocations(
+                ctx, [consumer.uuid])
         LOG.debug("Successfully wrote allocations %s", allocation_objects)
 
     def _create_allocations():
@@ -628,9 +630,11 @@ def set_allocations(req):
         # Empty allocations for consumers that did not exist: nothing was
         # written for them, so do not leave consumer records without
         # allocations (removed in this same transaction).
-        for new_consumer in new_consumers_created:
-            if not data[new_consumer.uuid]['allocations']:
-                new_consumer.delete()
+        # (unless a racing request has given them allocations meanwhile)
+        unused = [new_consumer.uuid for new_consumer in new_consumers_created
+                  if not data[new_consumer.uuid]['allocations']]
+        if unused:
+            consumer_obj.delete_consumers_if_no_allocations(ctx, unused)
         LOG.debug("Successfully wrote allocations %s", allocations)
 
     def _create_allocations():
